@@ -46,7 +46,13 @@ Decided (shape of the code, all inputs):
          source checked);
   R17.l  every JSON body -- streaming, non-streaming, inside JSONP -- is self.json_encoder (the encoder R17.d checks)
          applied to the endpoint result itself; a JSONP body is <this request's callback>( JSON ) and is built only when
-         the request names a callback; the dispatch of the basic renderer hands the endpoint result itself on.
+         the request names a callback; the dispatch of the basic renderer hands the endpoint result itself on; a generator
+         of the tree the body is passed through is read as a re-chunker over a finite buffer state (empty / holds
+         unemitted tokens / emitted, not cleared): no token overtakes buffered ones, none is dropped or repeated (another
+         transformation of the JSON stream is an analysis error, another producer a violation);
+  R17.m  optional attributes of a FunctionBuilder -- None unless the callable supplies them; read from the pinned boltons
+         source: default factory ``lambda: None`` (module, varargs, varkw, defaults) -- are joined / concatenated /
+         dereferenced on the render paths (the heading of the HTML table) only behind a presence test.
 Nothing is decided by running clastic code: paths are enumerated symbolically over the abstract results
 {non-empty str, non-empty bytes, '', b'', Sized non-text, unsized}; kinds of encoded objects over {instance, plain class,
 class with a metaclass}.
@@ -1324,7 +1330,8 @@ def run(rep):
                'R17.f format templates are constants; R17.g conversion methods are called on instances only (kinds of value); '
                'R17.h no per-request state on the shared renderers; R17.i 200 status, returns on every path, raises only for an '
                'explicit unknown format; R17.k provenance / precedence of the negotiated mime; R17.l JSON bodies come from the '
-               'renderer\'s own encoder applied to the endpoint result, JSONP padding')
+               'renderer\'s own encoder applied to the endpoint result, JSONP padding, re-chunkers keep the order; R17.m optional '
+               'FunctionBuilder attributes are used as text only behind a presence test')
     rep.decline('JSON validity and round trip of the stdlib encoder\'s output, HTML table shapes (third-party Table), the answer of '
                 'best_match for a given Accept header (values of third-party code)')
     rep.assume('request.args / accept_mimetypes behave as in werkzeug 1.0.1')
@@ -1901,6 +1908,11 @@ def run(rep):
         from . import c17_more
         c17_more.check_json_bodies(rep, repo, sys.modules[__name__])
 
+    def g_optional_labels():
+        import sys
+        from . import c17_more
+        c17_more.check_optional_labels(rep, repo, sys.modules[__name__], render_roots())
+
     def safely(fn):
         def group():
             try:
@@ -1916,7 +1928,7 @@ def run(rep):
                                     % (fn.__name__, type(e).__name__, e, tb.filename.rpartition('/')[2], tb.lineno))
         group.__name__ = fn.__name__
         return group
-    for g in (g_names, g_guess, g_render, g_serialize, g_encoder, g_labels, g_templates, g_kinds, g_shared, g_total, g_negotiation, g_json_bodies):
+    for g in (g_names, g_guess, g_render, g_serialize, g_encoder, g_labels, g_templates, g_kinds, g_shared, g_total, g_negotiation, g_json_bodies, g_optional_labels):
         rep.guard(safely(g))
     # floors are checked after all groups ran, so that one unrecognised construct does not hide the others
     for rule_, n_ in (('R17.c', 9),):
